@@ -69,6 +69,20 @@ pub fn generate(g: &mut Gen) {
         // inverted clamp interval is refused
         g.push(format!("obj.loss {} {} {} {}", o, clamp_tok(Some((1.0, -1.0))), qt(&p), qt(&t)), Tol::Tight, "clamp/inverted", true);
     }
+    // prediction and target one or two units in the last place apart, and tiny against zero: the sign rules of AE / MAE
+    // (and the differences of MSE / RMSE) must not treat "almost equal" as equal
+    for o in ["ae", "mae", "mse", "rmse"] {
+        let t: Vec<f32> = vec![0.5, 1.0, 5e-8, -1e-30, 3.0, 0.0, f32::from_bits(1), 1.0];
+        let p: Vec<f32> = vec![f32::from_bits(0.5f32.to_bits() + 1), f32::from_bits(1.0f32.to_bits() - 1), 0.0, 1e-30,
+            f32::from_bits(3.0f32.to_bits() + 2), -0.0, 0.0, 1.0];
+        for c in [None, Some((-0.5f32, 0.25f32))] {
+            let (p1, t1) = (Tensor::single(p.clone()), Tensor::single(t.clone()));
+            g.push(format!("obj.loss {} {} {} {}", o, clamp_tok(c), qt(&p1), qt(&t1)), Tol::Tight, &format!("{}/near-equal/1d", o), true);
+            g.push(format!("obj.loss {} {} {} {}", o, clamp_tok(c), qt(&t1), qt(&p1)), Tol::Tight, &format!("{}/near-equal/1d-swapped", o), true);
+            let to3 = |v: &Vec<f32>| Tensor::triple(v.chunks(4).map(|m| m.chunks(2).map(|r| r.to_vec()).collect()).collect());
+            g.push(format!("obj.loss {} {} {} {}", o, clamp_tok(c), qt(&to3(&p)), qt(&to3(&t))), Tol::Tight, &format!("{}/near-equal/3d", o), true);
+        }
+    }
     // seeded random stream
     for _ in 0..g.n(400, 12000) {
         let o = g.rng().pick(&OBJS);
